@@ -291,3 +291,39 @@ def check_inert_fields(ctx, rule, prog, fields):
                sites[0][0], sites[0][1])
     ctx.note('inert_field_readers', sorted('%s.%s' % k for k in readers))
     return readers
+
+
+# ------------------------------------------------------------- option wiring
+def parser_options(prog):
+    """[{flags, dest, action, type, default, nargs, node}] from build_parser."""
+    fn = prog.mod('lib').func('build_parser')
+    res = []
+    for call in calls_in(fn, nested=False):
+        if last_attr(call) != 'add_argument':
+            continue
+        flags = [a.value for a in call.args if isinstance(a, ast.Constant)
+                 and isinstance(a.value, str)]
+        rec = {'flags': flags, 'node': call}
+        for kw in call.keywords:
+            if kw.arg in ('dest', 'action', 'nargs', 'const'):
+                rec[kw.arg] = kw.value.value if isinstance(kw.value, ast.Constant) else norm(kw.value)
+            elif kw.arg in ('type', 'default'):
+                rec[kw.arg] = norm(kw.value)
+        if 'dest' not in rec and flags:
+            longs = [f for f in flags if f.startswith('--')]
+            base = (longs[0] if longs else flags[0]).lstrip('-')
+            rec['dest'] = base.replace('-', '_')
+        res.append(rec)
+    return res
+
+
+def option_reads(prog):
+    """{name: [(mod, qual, node)]} for ``<...>options.<name>`` loads."""
+    res = {}
+    for mod, qual, fn in prog.all_funcs():
+        for node in walk_no_nested(fn):
+            if isinstance(node, ast.Attribute) and isinstance(node.ctx, ast.Load):
+                base = norm(node.value)
+                if base == 'options' or base.endswith('.options'):
+                    res.setdefault(node.attr, []).append((mod, qual, node))
+    return res
